@@ -268,8 +268,8 @@ def run_case(kind, params, ctx):
                 rc = clihelp.run(["mnemonic", "--to-entropy", "-0x"], (mn + "\n").encode())
                 ctx.count("mut.cli_decided")
                 out = clihelp.parse_out(rc["out"], "hex") if rc["ok"] and rc["out"].strip() else None
-                if out is not None and r is None:
-                    ctx.violation(f"cli/to-entropy-accepts-invalid/{cls}", f"bits mnemonic --to-entropy accepted {mn!r} and printed {rc['out'][:70]!r}")
+                if r is None:
+                    clihelp.judge_invalid(ctx, rc, f"cli/to-entropy-accepts-invalid/{cls}", f"bits mnemonic --to-entropy of {mn!r}")
                 elif r is not None and out != r:
                     ctx.violation(f"cli/to-entropy-{'rejects-valid' if out is None else 'wrong'}/{cls}", f"{mn!r}: printed {rc['out'][:70]!r} (ret {rc['ret']!r}), reference {r.hex()}")
         return
@@ -295,8 +295,7 @@ def run_case(kind, params, ctx):
             for how in ("text", "text+newline"):
                 rb_ = clihelp.run(["mnemonic", "--from-entropy", clihelp.fmt_flag(fmt)], clihelp.rep(badent, fmt) + (b"\n" if how == "text+newline" and fmt != "raw" else b""))
                 ctx.count("cli.bad_entropy_lengths")
-                if rb_["ok"] and rb_["out"].strip():
-                    ctx.violation(f"cli/from-entropy-accepts-invalid-length/{'zero' if bad_len == 0 else 'nonzero'}/fmt:{fmt}", f"bits mnemonic --from-entropy with {bad_len} bytes ({fmt}) printed {rb_['out'][:60]!r}")
+                clihelp.judge_invalid(ctx, rb_, f"cli/from-entropy-accepts-invalid-length/{'zero' if bad_len == 0 else 'nonzero'}/fmt:{fmt}", f"bits mnemonic --from-entropy with {bad_len} bytes ({fmt})")
         # an entropy of a valid length plus one framing byte must be REFUSED, not silently trimmed
         if fmt == "raw":
             r3 = clihelp.run(["mnemonic", "--from-entropy", "-1"], ent + b"\n")
